@@ -304,7 +304,16 @@ func c05RunSeq(res *engine.Result, c c05Case, ops []int) ([]string, bool) {
 		nat2, _ := cl.Query("select a,b,c from nat2 order by a")
 		got2, g2err := cl.Query("select a,b,c from {T}_o order by a")
 		if g2err != nil || !got2.Equal(nat2) {
-			res.Violate("own-view-differs-other-table:"+op, "after %s the second table shows %v (err %v), its native mirror %v [%s]", op, got2, g2err, nat2, where)
+			cls := "own-view-differs-other-table:" + op
+			if op == "commit" && serr != nil && g2err == nil {
+				// COMMIT over two s3db tables: did the other table publish its version before this table's failed?
+				for _, rq := range w.B.LogSince(txLogStart) {
+					if rq.Op == "PUT" && strings.HasPrefix(rq.Key, "other/") && strings.Contains(rq.Key, "/root/current/") && rq.Outcome == "ok" {
+						cls = "failed-commit-over-two-tables-keeps-first-tables-version"
+					}
+				}
+			}
+			res.Violate(cls, "after %s (result: %v) the second table shows %v (err %v), its native mirror %v [%s]", op, serr, got2, g2err, nat2, where)
 		}
 		log := w.B.LogSince(logStart)
 		dump, _ := engine.LiveDump(cl.Tab)
